@@ -433,6 +433,14 @@ structure Distinct (cfg : Cfg) : Prop where
   transfer : cfg.transferModule ≠ cfg.orbAddr ∧ cfg.transferModule ≠ cfg.dustAddr
   escrow : ∀ p c, cfg.escrow p c ≠ cfg.orbAddr ∧ cfg.escrow p c ≠ cfg.dustAddr
 
+/-- Coverage obligation for "coins already on the account never alter a transfer": the module reads the orbiter's balance one
+denomination at a time (`GetBalance`) and has no other read of it (`GetAllBalances`, `SpendableCoins`, …) — the reads the
+perturbation argument (`Lemmas/Perturb.lean`) accounts for are all there are. -/
+theorem pin_bank_reads :
+    Gen.externalSurface.lookup "types.BankKeeper" =
+      some ["GetBalance func(context.Context, types.AccAddress, string) types.Coin",
+            "SendCoins func(context.Context, types.AccAddress, types.AccAddress, types.Coins) error"] := by decide +kernel
+
 /-- Coverage obligation: the module accounts of the built application are pairwise different. -/
 theorem pin_distinct :
     Gen.dustCollectorAddress ≠ Gen.moduleAddress ∧
